@@ -21,7 +21,7 @@ func init() {
 	mirrored["tars/endpointmanager.go"] = c14AppendUnique(mirrored["tars/endpointmanager.go"], "endpointManager.SelectAdapterProxy",
 		"endpointManager.updateActiveEp", "endpointManager.addAliveEp", "endpointManager.enableWeight")
 	mirrored["tars/util/current/clientcurrent.go"] = c14AppendUnique(mirrored["tars/util/current/clientcurrent.go"],
-		"SetClientHash", "GetClientHash", "newClientCurrent")
+		"SetClientHash", "GetClientHash", "newClientCurrent", "SetClientTimeout", "GetClientTimeout", "SetServerIPWithContext", "SetServerPortWithContext")
 	mirrored["tars/message.go"] = c14AppendUnique(mirrored["tars/message.go"], "Message.SetHash", "Message.HashCode", "Message.HashType", "Message.IsHash")
 	mirrored["tars/hash_func.go"] = c14AppendUnique(mirrored["tars/hash_func.go"], "HashString", "Hash", "HashNew", "MagicStringHash")
 	mirrored["tars/servant.go"] = c14AppendUnique(mirrored["tars/servant.go"], "ServantProxy.TarsInvoke")
@@ -136,6 +136,66 @@ func init() {
 			}
 		} else {
 			anchorLost("endpointmanager.go: updateActiveEp not found")
+		}
+		// clientcurrent.go: every setter (func Set…) writes only fields of its own: no whole-struct
+		// assignment (`*cc = …`), and a field written by more than one setter (a packed flags field)
+		// is only ever written with `|=` or `&^=` (Lean: HashRoute.setClient…, theorem
+		// C14_hash_survives_other_options).
+		if cc := parse("tars/util/current/clientcurrent.go"); cc != nil {
+			type wr struct {
+				fn  string
+				tok token.Token
+			}
+			writes := map[string][]wr{}
+			bad := ""
+			nSetters := 0
+			for _, d := range cc.f.Decls {
+				fd, ok := d.(*ast.FuncDecl)
+				if !ok || fd.Recv != nil || fd.Body == nil || len(fd.Name.Name) < 3 || fd.Name.Name[:3] != "Set" {
+					continue
+				}
+				nSetters++
+				ast.Inspect(fd.Body, func(n ast.Node) bool {
+					switch x := n.(type) {
+					case *ast.AssignStmt:
+						for _, l := range x.Lhs {
+							switch lx := l.(type) {
+							case *ast.StarExpr:
+								bad = fd.Name.Name + " assigns the whole struct (" + exprStr(cc.fset, x) + ")"
+							case *ast.SelectorExpr:
+								writes[lx.Sel.Name] = append(writes[lx.Sel.Name], wr{fd.Name.Name, x.Tok})
+							}
+						}
+					case *ast.IncDecStmt:
+						if lx, ok := x.X.(*ast.SelectorExpr); ok {
+							writes[lx.Sel.Name] = append(writes[lx.Sel.Name], wr{fd.Name.Name, x.Tok})
+						}
+					}
+					return true
+				})
+			}
+			for field, ws := range writes {
+				fns := map[string]bool{}
+				for _, w := range ws {
+					fns[w.fn] = true
+				}
+				if len(fns) > 1 {
+					for _, w := range ws {
+						if w.tok != token.OR_ASSIGN && w.tok != token.AND_NOT_ASSIGN {
+							bad = "field " + field + " is shared by several setters and " + w.fn + " overwrites it with `" + w.tok.String() + "`"
+						}
+					}
+				}
+			}
+			switch {
+			case nSetters < 2:
+				anchorLost("clientcurrent.go: setters (func Set…) not found")
+			case bad != "":
+				anchorLost("clientcurrent.go: a setter does not keep to its own fields: %s", bad)
+			default:
+				add("conHashCtxSettersDisjoint", 1, true)
+				add("conHashCtxSetters", int64(nSetters), true)
+			}
 		}
 		// Ketama: `for k := 0; k < 4; k++` — ring points taken from one MD5 digest, in addLocked and (as found) in Remove
 		v, ok = ch.cmpLit("ConsistentHash.addLocked", "k", token.LSS)
